@@ -237,6 +237,8 @@ func matchFinding(fs []Finding, property, harness, sig string) *Finding {
 	return nil
 }
 
+func exhaustive0(res *exploreResult) bool { return res.unexplored == 0 && res.stats.deadline == 0 }
+
 // ---------------------------------------------------------------- the check command
 
 type checkOpts struct {
@@ -405,8 +407,12 @@ func runCheck(o *checkOpts) int {
 
 	// ---- vacuity: every harness must have at least one complete feasible path
 	var vacuous []string
+	hasCand := map[string]bool{}
+	for sig := range res.viols.count {
+		hasCand[strings.SplitN(sig, "|", 2)[0]] = true
+	}
 	for _, n := range names {
-		if st.perHarness[n] == 0 {
+		if st.perHarness[n] == 0 && !hasCand[n] && exhaustive0(res) {
 			vacuous = append(vacuous, n)
 		}
 	}
@@ -512,12 +518,12 @@ func runCheck(o *checkOpts) int {
 	for _, l := range lines {
 		fmt.Println(l)
 	}
+	if violations > 0 {
+		return 1
+	}
 	if len(vacuous) > 0 {
 		fmt.Println("ENGINE-ERROR: harnesses without any complete feasible path (vacuous):", vacuous)
 		return 3
-	}
-	if violations > 0 {
-		return 1
 	}
 	return 0
 }
